@@ -59,6 +59,7 @@ ALPHABET = [
     ["add", "OH-", "[OH-]"],
     ["bulk", [["CO2", "O=C=O"], ["Bad2", "C(C)(C)(C)(C)C"], ["CO2", "C(=O)=O"], ["H2", "[H][H]"]]],
     ["bulk", [["H2O", "O"], ["NaCl", "[Na+].[Cl-]"], ["H2O", "O"]]],
+    ["bulk", [["CH4", "[H]C([H])([H])[H]"], ["NH4+", "[NH4+]"], ["Water", "O"], ["Bad3", "xx"], ["D2O", "[2H]O[2H]"]]],   # third entry: SMILES maybe present under another formula
     ["remove", "H2O"],
     ["remove", "NaCl"],
     ["remove", "Nope"],
@@ -70,6 +71,20 @@ ALPHABET = [
     ["extract", ["CCO", "COC", "O", "C1CC", "CCO"]],   # automatic extraction: isomers share a formula, one invalid, one repeated
     ["extract", ["[NH4+]", "O=C=O", "[Na+].[Cl-]"]],
 ]
+def _big_extract():
+    """~100 distinct small molecules with many constitutional isomers (shared formulas)."""
+    out = []
+    for n in range(1, 7):
+        chain = "C" * n
+        out += [chain, chain + "O", chain + "N", chain + "Cl", chain + "=O" if n > 1 else "C=O", chain + "S", chain + "Br", chain + "F"]
+        for k in range(1, n):
+            out += ["C" * k + "O" + "C" * (n - k), "C" * k + "N" + "C" * (n - k), "C" * k + "S" + "C" * (n - k)]
+        if n >= 3:
+            out += ["CC(C)" + "C" * (n - 3) + "O", "CC(O)" + "C" * (n - 2), "C1" + "C" * (n - 1) + "1", "CC(C)" + "C" * (n - 3) + "N", "CC(=O)" + "C" * (n - 2)]
+    return list(dict.fromkeys(out))
+
+
+BIG_EXTRACT = _big_extract()
 STARTS = ["empty", "rules_manager", "automated_rules", "foreign_records", "dataframe"]
 
 
@@ -115,7 +130,11 @@ def gen_plan(base_seed, i, tier):
                 ops.append(["extract", [rng.choice(COMPOUNDS)[1] if rng.random() < 0.85 else rng.choice(["C1CC", "xx", "CCO", "COC"]) for _ in range(k)]])
             elif u < 0.7:
                 k = rng.randint(1, 4)
-                ops.append(["bulk", [list(rng.choice(COMPOUNDS)) if rng.random() < 0.8 else ["Bad%d" % rng.randint(0, 3), "C1CC"] for _ in range(k)]])
+                ents = [list(rng.choice(COMPOUNDS)) if rng.random() < 0.8 else ["Bad%d" % rng.randint(0, 3), "C1CC"] for _ in range(k)]
+                for e in ents:
+                    if rng.random() < 0.2:
+                        e[0] = e[0] + "_alt"  # another formula for a SMILES that may already be present
+                ops.append(["bulk", ents])
             else:
                 ops.append(["remove", rng.choice(COMPOUNDS)[0] if rng.random() < 0.8 else rng.choice(["Nope", "Cl2", "H2O", "NH3", "H3N", "Br2", "O", "N", "CO", "Cl", "[OH-]", "O2-", "S2-", "SO42-", "S^2-"])])
         hists.append({"start": rng.choice(STARTS), "ops": ops})
@@ -125,6 +144,9 @@ def gen_plan(base_seed, i, tier):
 def extra_plans(tier, base_seed):
     L = 4 if tier == "quick" else 5
     plans = [{"property": "C19", "kind": "start_states"}]
+    for st in ("empty", "automated_rules"):
+        # one bulk extraction of ~100 distinct fragments with many isomer pairs, then ordinary edits
+        plans.append({"property": "C19", "kind": "seeded", "histories": [{"start": st, "ops": [["extract", BIG_EXTRACT], ["add", "C2H6O", "OCC"], ["remove", "C2H6O"], ["extract", BIG_EXTRACT[::-1]]]}]})
     for a in range(len(ALPHABET)):
         plans.append({"property": "C19", "kind": "exhaustive", "first": a, "length": L})
     return plans
